@@ -10,6 +10,7 @@ WORK = os.environ.get("VERIF_WORK") or os.path.join(ROOT, "work")
 REPO = os.environ.get("VERIF_REPO") or "/repo"
 SCRATCH = REPO != "/repo"
 NCPU = os.cpu_count() or 4
+COQC_FILE_TIMEOUT = 1500   # seconds per .v file (the slowest file of the development takes about 40 s)
 
 GOENV = dict(os.environ, GOFLAGS="-mod=mod", GOPROXY="off", GOSUMDB="off", GOTOOLCHAIN="local",
              CGO_ENABLED=os.environ.get("CGO_ENABLED", "0"))
@@ -89,7 +90,8 @@ def coq_build(targets=None, timeout=3600):
     """Full .vo build (never -vos/-vok) of the given targets (default: everything)."""
     with Lock("coq"):
         coq_makefile()
-        cmd = ["make", "-j%d" % NCPU, "-k"] + (targets or [])
+        # every coqc call gets its own time limit: a proof script that diverges must fail, not hang the build
+        cmd = ["make", "-j%d" % NCPU, "-k", "COQC=timeout %d coqc" % COQC_FILE_TIMEOUT] + (targets or [])
         rc, out, wall = sh(cmd, cwd=COQ, timeout=timeout)
         return rc, out, wall
 
@@ -156,6 +158,15 @@ def proof_obligations(pid):
         return res
     targets = ["Properties/%s.vo" % os.path.basename(v)[:-2] for v in vfiles]
     # source-table tie (BUILDING.md): Cxx/SrcTab.v is needed by the srctabXX shards only
+    # everything the case shards of this property import must be fresh as well: all of coq/<pid>/ (Check.v is
+    # not always a dependency of Properties/<pid>.v) plus what the property's config names
+    for v in sorted(glob.glob(os.path.join(COQ, pid, "*.v"))):
+        t = "%s/%so" % (pid, os.path.basename(v))
+        if t not in targets:
+            targets.append(t)
+    for t in PROPS.get(pid, {}).get("coq_extra_targets", []):
+        if t not in targets:
+            targets.append(t)
     srctab = os.path.join(COQ, pid, "SrcTab.v")
     if os.path.exists(srctab):
         targets.append("%s/SrcTab.vo" % pid)
@@ -527,7 +538,7 @@ def finish(pid, tier, seed, t0, ob, summary, cases, failures, cfg, fatal=None, r
 
 def setup():
     t0 = time.time()
-    rc, out, wall = coq_build(timeout=4 * 3600)
+    rc, out, wall = coq_build(timeout=90 * 60)
     print(out[-4000:])
     missing = []
     claimed = sorted(p for p in PROPS if PROPS[p].get("claimed", True))
